@@ -13,7 +13,8 @@ META = {
         "The Display impls of the AST (src/ast/mod.rs, src/token.rs) are abstractly interpreted on an enumeration of node "
         "shapes: every Type2 / Type1 / Type / Group / GroupChoice / GroupEntry / MemberKey / Occur / Rule variant, each "
         "optional field present and absent, each flag both ways, literal values at the meaning-sensitive points (1.0 vs 1, "
-        "text containing quote and backslash, sockets, generic arguments, cuts, occurrence bounds, tag numbers) — comments absent. "
+        "text containing quote and backslash, sockets, generic arguments, cuts, occurrence bounds, tag numbers), comments absent and, for the shapes where a comment can change meaning, present; text literals over every "
+        "string up to a bounded length of an alphabet of ordinary, quote, backslash, control, non-ASCII and astral characters. "
         "The text the source would print is compared, modulo layout whitespace and optional commas, with an independent "
         "reference rendering of the RFC 8610 concrete syntax for the same node: a dropped marker (~, &, ^, $, .., ...), a "
         "dropped field (occurrence, generic arguments, socket, tag number) or a re-typed literal shows up as a difference. "
